@@ -3,16 +3,31 @@ from ..rules import gen, gen2
 
 ID = 'C22'
 TECHNIQUE = ('path-sensitive dataflow over the try/except/finally/with code generators: label-slot save/restore, label placement, interceptor alignment, temp release; '
-             'decision table of __Pyx_Raise over the complete partition of the cause operand (three-valued path exploration of the parsed C body, all #if arms)')
+             'decision table of __Pyx_Raise over the complete partition of the cause operand (three-valued path exploration of the parsed C body, all #if arms, final state of '
+             '->cause / ->suppress_context); symbolic evaluation of the emitters of the exception-state helpers over sequences of temp slots (role and position facts per slot, '
+             'interprocedural through self.method() calls and closures); typestate of code.funcstate attributes and of the raised exception at the handler body; '
+             'symbolic construction of the tree WithTransform builds, compared with the PEP 343 skeleton; role propagation + thread-state access table of the C state helpers per #if variant')
 DECIDES = ('G3: every generator that redirects the error/return/break/continue label slots restores them from the saved values on every normal exit; '
            'G4: every label created is placed (put_label / label_interceptor) when it is jumped to; G4b: label_interceptor pairs new and original labels of the same kind; '
            'G2: the exception save variables and other temps are released on every normal path; G1 for the evaluated sub-expressions; '
            'C22-ELSE: the else clause of try/except is generated outside the region whose error label is the handler dispatch; '
            'C22-CAUSE: for each element of {no from-clause, None, exception class, exception instance, other object} of the 4th argument, every path of __Pyx_Raise that '
-           'raises the requested exception has made exactly the PyException_SetCause call of ceval.c:do_raise (none / (value, NULL) / (value, new instance) / (value, cause)), '
-           'any other object never raises it, and RaiseStatNode passes NULL exactly when the statement has no from-clause.')
+           'raises the requested exception leaves (->cause, ->suppress_context) as ceval.c:do_raise does (untouched / (NULL, 1) / (new instance, 1) / (cause, 1)) whether it calls '
+           'PyException_SetCause or stores the fields directly, any other object never raises it, and RaiseStatNode passes NULL exactly when the statement has no from-clause; '
+           'C22-ROLE: a temp slot filled by __Pyx_ExceptionSave/Swap (previous sys.exc_info()) is only handed to __Pyx_ExceptionReset, a slot filled by __Pyx_GetException/__Pyx_ErrFetch '
+           '(the raised exception) only to __Pyx_ErrRestore[WithState] or published as code.funcstate.exc_vars, and every slot keeps its position type/value/traceback in all helper calls, '
+           'the `as` target binding and the except* stores; C22-ZERO: a function that emits `slot = 0` for slots it did not fill has consumed (Reset/Restore) or decref\'ed them; '
+           'C22-FSTATE: code.funcstate.exc_vars / current_except / gil_owned saved in a local and overwritten are put back on every normal path; '
+           'C22-CLEAR: the handler body of an except clause is generated only after a helper that takes the raised exception out of the thread state was emitted on every path; '
+           'C22-WITH: WithTransform builds try/finally(try/except(body)) with a bare except clause running `if not EXIT(*excinfo_target): raise` unconditionally, a finally clause running '
+           'EXIT(None, None, None) guarded by "not yet called", __aenter__/__aexit__ + await exactly for async with (same polarity in WithStatNode); '
+           'C22-STATE: in ErrFetch/ErrRestore, ExceptionSave/Reset/Swap, GetException, ReraiseException (every #if variant) type/value/traceback never change slot in a store or C-API call, '
+           'each helper reads/writes/clears exactly the thread-state store (raised vs handled exception) of its contract, readers of the handled exception use the topmost non-empty '
+           'exc_info item and writers the current one, and every out-parameter is written on every path.')
 NOT_DECIDED = ('implicit __context__ chaining (done by PyErr_SetObject / the exc_info save-restore helpers of Exceptions.c), reference counting of the cause, '
-               'and the run-time order of blocks.')
+               'the run-time order of blocks; in which emitted segment (between placed labels) the saved exc_info must be restored — e.g. dropping the restore at except_end_label of '
+               'TryExceptStatNode is not seen, the emitted control flow is not modelled; the loop condition of __Pyx_PyErr_GetTopmostException (copied from CPython); the except* runtime '
+               '(ExceptStar section) beyond the slot positions; `raise MemoryError from exc` drops the cause on the unmodified tree (rule C22-CAUSE-SHORTCUT written, pending finding, not registered).')
 
 # Single edits tried on a scratch copy for C22-CAUSE (rules/sC22.py): (file, edit, outcome)
 MUTATIONS = [
@@ -24,7 +39,19 @@ MUTATIONS = [
     ('Cython/Utility/Exceptions.c', 'class cause attached without instantiating it', 'C22-CAUSE cause=class'),
     ('Cython/Compiler/Nodes.py', 'RaiseStatNode: tb_code / cause_code swapped in the __Pyx_Raise operand tuple', 'C22-CAUSE arg4'),
     ('Cython/Compiler/Nodes.py', 'RaiseStatNode: cause_code = "Py_None" when there is no from-clause', 'C22-CAUSE arg4:no-from'),
+    # fourth round (rules/pC22.py; the full list with patches is in /verif/mutants/C22/)
+    ('Cython/Utility/Exceptions.c', 'seed C22d: `from None` sets ->suppress_context = 1 instead of calling PyException_SetCause(value, NULL)', 'C22-CAUSE cause=None (was ANALYSIS-ERROR)'),
+    ('Cython/Compiler/Nodes.py', 'seed C22c: put_error_cleaner with the two slices of exc_vars bound to the wrong names', 'C22-ROLE'),
+    ('Cython/Compiler/Nodes.py', 'put_error_uncatcher / put_error_catcher slices swapped; funcstate.exc_vars = exc_vars[3:]; Reset(exc_vars[3], exc_vars[1], exc_vars[5])', 'C22-ROLE (4 variants)'),
+    ('Cython/Compiler/Nodes.py', 'put_error_cleaner without the __Pyx_ExceptionReset emission', 'C22-ZERO'),
+    ('Cython/Compiler/Nodes.py', 'ExceptClauseNode: set_var(exc_vars[0]); GetException(&v[1], &v[0], &v[2]); StarExceptSetExceptionNode: Py_TYPE into vars[2]', 'C22-ROLE position (3 variants)'),
+    ('Cython/Compiler/Nodes.py', 'ExceptClauseNode: funcstate.exc_vars not put back; `__Pyx_ErrRestore(0,0,0)` dropped', 'C22-FSTATE; C22-CLEAR'),
+    ('Cython/Compiler/ParseTreeTransforms.py', 'WithTransform: NotNode dropped; finally call test_if_run=False; pattern=[Exception]; Nodes.WithStatNode: __exit__/__aexit__ polarity', 'C22-WITH (4 variants)'),
+    ('Cython/Utility/Exceptions.c', 'GetException keeps current_exception; ExceptionSwap stores *type as value / never writes *value; ExceptionReset writes curexc_*; Reraise reads tstate->exc_info; ErrFetch type/tb crossed', 'C22-STATE (6 variants)'),
+    ('Cython/Compiler/Nodes.py', 'TryExceptStatNode: restore_saved_exception() at except_end_label dropped', 'MISSED (emitted control flow, see NOT_DECIDED)'),
     # behaviour-preserving: all silent
+    ('Cython/Compiler/Nodes.py', 'slices bound to well-named locals; six temps allocated as two tuples of three and concatenated; f-string emission of Save/Reset; funcstate restore written with inverted test', 'silent (G2 of rules/gen2.py fires on the concatenated tuples: shared rule, reported)'),
+    ('Cython/Compiler/ParseTreeTransforms.py', 'WithTransform: sub-trees built in locals first, keyword order changed', 'silent'),
     ('Cython/Utility/Exceptions.c', 'fixed_cause renamed, `cause != NULL`, `Py_None == cause`', 'silent'),
     ('Cython/Utility/Exceptions.c', 'None case split off into its own `if (cause == Py_None) SetCause(value, NULL); else if (!(cause == NULL)) {...}`, instance test before class test, nested ifs, `!fixed_cause`', 'silent'),
     ('Cython/Compiler/Nodes.py', 'RaiseStatNode: f-string emission, `from_code = self.cause.py_result() if self.cause else "NULL"`, `if self.cause is not None`', 'silent'),
@@ -33,5 +60,5 @@ MUTATIONS = [
 
 
 def run(ctx):
-    from ..rules import exc, sC22
-    return gen.label_rules(ctx) + [gen2.rule_G2(ctx), gen2.rule_G1(ctx)] + exc.rules(ctx) + [sC22.rule_cause(ctx)]
+    from ..rules import exc, sC22, pC22
+    return gen.label_rules(ctx) + [gen2.rule_G2(ctx), gen2.rule_G1(ctx)] + exc.rules(ctx) + [sC22.rule_cause(ctx)] + pC22.rules(ctx)
